@@ -38,6 +38,7 @@ TRUSTED = [
 ]
 
 API_LOADERS = ("iodata.api.load_one", "iodata.api.load_many")
+EXPLANATION += ' (R9) counted record loops (`for i in range(n)` consuming a line per iteration) store row i on every completed iteration (CFG must-pass). (R8) a callee that receives both a line and the iterator is not called after that line was put back (its errors would carry an earlier line number). (R6) LineIterator pairs every consumed line with +1 and every pushed-back line with -1 on `lineno`. R1 also forbids the funnel decorator to change the warning filters around the loader.'
 
 
 def run(ctx):
@@ -258,6 +259,8 @@ def run(ctx):
     check_validate_shape(ctx, "R5")
     check_line_counter(ctx)
     check_parallel_lists(ctx)
+    check_parse_before_back(ctx)
+    check_counted_fill(ctx)
 
 
 def _outcomes(stmts):
@@ -300,6 +303,132 @@ def _outcomes(stmts):
 def _ends_raising(stmts):
     """Every path through the statement list ends in a raise."""
     return _outcomes(stmts) == {"raise"}
+
+
+def check_counted_fill(ctx):
+    """R9: a counted record loop of a loader fills row i in iteration i.
+
+    In `for i in range(n)` loops that store into arrays at index i, every iteration that completes normally has stored
+    into at least one of them, and into each array that was allocated without initial values (np.empty); otherwise a
+    skipped record (a `continue` for a blank or comment line) leaves a row of uninitialised memory in the result and
+    the per-record lists of the same loop come out shorter than the arrays."""
+    from ..cfg import cfg_of
+
+    prog = ctx.prog
+    ctx.rule("R9", "counted record loops fill every row they count", "a skipped record leaves an uninitialised row and arrays / lists of different lengths in the returned object")
+    nloops = 0
+    for f in prog.package_funcs():
+        if not f.module.name.startswith("iodata.formats.") or f.name.startswith(("dump", "_dump", "prepare")):
+            continue
+        for n in f.own_nodes():
+            if not (isinstance(n, ast.For) and isinstance(n.target, ast.Name) and isinstance(n.iter, ast.Call) and isinstance(n.iter.func, ast.Name) and n.iter.func.id == "range"):
+                continue
+            i = n.target.id
+            stores = []
+            for st in ast.walk(n):
+                if isinstance(st, (ast.Assign, ast.AugAssign)):
+                    tg = st.targets if isinstance(st, ast.Assign) else [st.target]
+                    flat = []
+                    for t in tg:
+                        flat.extend(t.elts if isinstance(t, (ast.Tuple, ast.List)) else [t])
+                    for t in flat:
+                        if isinstance(t, ast.Subscript) and isinstance(t.value, ast.Name):
+                            first = t.slice.elts[0] if isinstance(t.slice, ast.Tuple) and t.slice.elts else t.slice
+                            if isinstance(first, ast.Name) and first.id == i:
+                                stores.append((t.value.id, st))
+            if not stores:
+                continue
+            # only loops that consume input per iteration are record loops
+            if not any(isinstance(x, ast.Call) and isinstance(x.func, ast.Name) and x.func.id == "next" for x in ast.walk(n)):
+                continue
+            nloops += 1
+            cfg = cfg_of(f)
+            head, body0 = cfg.idx(n), cfg.idx(n.body[0])
+            allst = [cfg.idx(st) for _, st in stores]
+            where = f"{f.module.relpath}:{n.lineno}"
+            if body0 not in allst and not cfg.must_pass([head], allst, start=body0):
+                ctx.violate("R9", f"{f.name}: an iteration of `for {i} in range(...)` can complete without storing anything at index {i} ({', '.join(sorted({a for a, _ in stores}))}): the record count advances but row {i} stays unfilled", f, n, construct=f"counted loop over {i}: iteration without a store")
+                continue
+            bad = []
+            for name in sorted({a for a, _ in stores}):
+                alloc = [x for x in f.own_nodes() if isinstance(x, ast.Assign) and any(isinstance(t, ast.Name) and t.id == name for t in x.targets) and isinstance(x.value, ast.Call)]
+                empty = any(isinstance(a.value.func, ast.Attribute) and a.value.func.attr in ("empty", "empty_like") for a in alloc)
+                th = [cfg.idx(st) for a, st in stores if a == name]
+                if empty and body0 not in th and not cfg.must_pass([head], th, start=body0):
+                    bad.append(name)
+            if bad:
+                ctx.violate("R9", f"{f.name}: `{bad[0]}` is allocated without initial values (np.empty) and an iteration of the record loop can complete without storing `{bad[0]}[{i}]`", f, n, construct=f"counted loop over {i}: {bad[0]} not always stored")
+            else:
+                ctx.ok("R9", f"{f.name}: every iteration stores row {i} ({', '.join(sorted({a for a, _ in stores}))})", where)
+    ctx.floor("R9", nloops, 8, "counted record loops in loaders")
+
+
+def check_parse_before_back(ctx):
+    """R8: a line is parsed before it is put back.
+
+    `lit.back(v)` lowers the line counter.  A callee that gets both the text `v` and the iterator reports errors about
+    that text with `lit.lineno`; called after the put-back it names a line *before* the one it complains about."""
+    from ..cfg import cfg_of
+
+    prog = ctx.prog
+    ctx.rule("R8", "a line handed to a parser together with the iterator has not been put back yet", "a LoadError about that line carries the number of an earlier line (for the first frame: line 0)")
+    nback = 0
+    for f in prog.package_funcs():
+        if not f.module.name.startswith("iodata.formats."):
+            continue
+        backs = []
+        for cs in f.calls:
+            fn = cs.node.func
+            if isinstance(fn, ast.Attribute) and fn.attr == "back" and isinstance(fn.value, ast.Name) and len(cs.node.args) == 1 and isinstance(cs.node.args[0], ast.Name):
+                backs.append((fn.value.id, cs.node.args[0].id, cs.node))
+        if not backs:
+            continue
+        cfg = cfg_of(f)
+        pm = prog.parents(f)
+
+        def stmt_of(node):
+            cur = node
+            while not isinstance(cur, ast.stmt):
+                cur = pm[id(cur)]
+            return cur
+
+        for litname, var, node in backs:
+            nback += 1
+            start = cfg.idx(stmt_of(node))
+            # statements that give `var` a new value end the search along that path
+            rebind = set()
+            for nd in cfg.stmts():
+                st = nd.stmt
+                tg = []
+                if isinstance(st, ast.Assign):
+                    tg = st.targets
+                elif isinstance(st, (ast.AugAssign, ast.AnnAssign)):
+                    tg = [st.target]
+                elif isinstance(st, ast.For):
+                    tg = [st.target]
+                if any(isinstance(x, ast.Name) and x.id == var for t in tg for x in ast.walk(t)) and nd.idx != start:
+                    rebind.add(nd.idx)
+            reach = cfg.reachable(start, avoid=rebind) - {start}
+            bad = None
+            for nd in cfg.stmts():
+                if nd.idx not in reach:
+                    continue
+                own = [nd.stmt] if not isinstance(nd.stmt, (ast.If, ast.While, ast.For, ast.With, ast.Try)) else [getattr(nd.stmt, "test", None) or getattr(nd.stmt, "iter", None)]
+                for root in own:
+                    if root is None:
+                        continue
+                    for c in ast.walk(root):
+                        if isinstance(c, ast.Call) and not (isinstance(c.func, ast.Attribute) and c.func.attr == "back"):
+                            argn = [x.id for a in list(c.args) + [k.value for k in c.keywords] for x in ast.walk(a) if isinstance(x, ast.Name)]
+                            if var in argn and litname in argn:
+                                bad = c
+                if bad is not None:
+                    break
+            if bad is None:
+                ctx.ok("R8", f"{f.name}: `{var}` is not parsed with `{litname}` after `{litname}.back({var})`", f"{f.module.relpath}:{node.lineno}")
+            else:
+                ctx.violate("R8", f"{f.name}: `{src_of(bad)[:60]}` parses `{var}` with the iterator after `{litname}.back({var})` (line {node.lineno}): an error about that line is reported with the number of an earlier line", f, bad)
+    ctx.floor("R8", nback, 15, "put-back sites in the format modules")
 
 
 def check_parallel_lists(ctx):
